@@ -570,6 +570,8 @@ func (s Src) buildRef() (*Built, error) {
 					sp.RecUSizeLie = map[int]uint64{}
 				}
 				sp.RecUSizeLie[l.Blk] = v
+			case "droprecs":
+				sp.DropRecs = int(int64(v))
 			case "backward":
 				w := uint32(v)
 				sp.BackwardLie = &w
